@@ -119,12 +119,6 @@ theorem create_unlocked_refines {c : CW} {s : WS} (hi : Inv c) (hb : Bounds c) (
     have h2 := h1.keysSame facts.keys
     show AllKeys (fun _ x => SharedIn w'.pool x) w'
     rw [hpool']; exact h2
-  have hcl' : Mustache.Model.ArchsClosed w'.deps w'.archs := by
-    have h1 := AllKeys.getArch (P := fun mk _ => ClosedUnder w1.deps mk) (w := w1) hi1.closed mask sh
-      (closedMask_closed hi1.depsB mask)
-    have h2 := h1.keysSame facts.keys
-    show AllKeys (fun mk _ => ClosedUnder w'.deps mk) w'
-    rw [hdeps']; exact h2
   have hdeps1 : s.deps = w1.deps := hr1.deps
   have hstepeq : CW.step info ⟨w, iss⟩ (.create t mask shared) =
       (⟨w', iss ++ [h]⟩, .created h, (w1.create info t mask sh).2.2) := by
@@ -155,7 +149,7 @@ theorem create_unlocked_refines {c : CW} {s : WS} (hi : Inv c) (hb : Bounds c) (
       rw [specPair_nil, hvals x hx]
     · show lookupS (shared.map (fun sid => (sid, 0))) sid = _
       rw [spec.2.2.2.2 sid, lookupS_defaults]; simp
-  have hborn := born_refines hi1 hr1 hl1 htab.1 htab.2 hstep howns hfresh hsh' hcl' facts.ctl facts.marked
+  have hborn := born_refines hi1 hr1 hl1 htab.1 htab.2 hstep howns hfresh hsh' facts.ctl facts.marked
     (facts.cover hi1.locsCover) hb' _ hx
   have hs : s.step info (Op.mapRef (ordOf iss) (.create t mask shared)) =
       ({ s with ents := s.ents ++ [some ⟨rebuild info [] (closed s.deps mask) [], shared.map (fun sid => (sid, 0))⟩] },
@@ -241,10 +235,6 @@ theorem clone_refines {c : CW} {s : WS} (hi : Inv c) (hb : Bounds c) (hr : Rel c
       have h2 := AllKeys.keysSame (P := fun _ x => SharedIn w.pool x) hi.shared facts.keys
       show AllKeys (fun _ x => SharedIn w'.pool x) w'
       rw [hpool']; exact h2
-    have hcl' : Mustache.Model.ArchsClosed w'.deps w'.archs := by
-      have h2 := AllKeys.keysSame (P := fun mk _ => ClosedUnder w.deps mk) hi.closed facts.keys
-      show AllKeys (fun mk _ => ClosedUnder w'.deps mk) w'
-      rw [hdeps']; exact h2
     have hstepeq : CW.step info ⟨w, iss⟩ (.clone e) = (⟨w', iss ++ [h]⟩, .created h, []) := by
       have : w.clone e = (w', some h) := by rw [hclone, ← hw'def, hclone]
       simp only [CW.step, WM.step, this, issueOut]
@@ -252,7 +242,7 @@ theorem clone_refines {c : CW} {s : WS} (hi : Inv c) (hb : Bounds c) (hr : Rel c
     have hx : optRel (some ent) (absEnt w' h) := by
       rw [owns_absEnt howns, hmask, hshared, hpool']
       exact hrel
-    have hborn := born_refines hi hr hl0 htab1 htab2 hstep howns hfresh hsh' hcl' facts.ctl facts.marked
+    have hborn := born_refines hi hr hl0 htab1 htab2 hstep howns hfresh hsh' facts.ctl facts.marked
       (facts.cover hi.locsCover) hb' ent hx
     have hs : s.step info (Op.mapRef (ordOf iss) (.clone e)) =
         ({ s with ents := s.ents ++ [some ent] }, .created s.ents.length, []) := by
